@@ -115,6 +115,11 @@ class PathDomain(Domain):
                         for x, v_ in zip(t.elts, vals):
                             d[x.id] = v_
                             facts = frozenset(self._age(f, x.id) if self._mentions(f[2], x.id) else f for f in facts)
+                    elif all(isinstance(x, ast.Name) for x in t.elts) and val is not None:
+                        # a, b = f(x): the components of one value (the call is taken to be pure: it is named once)
+                        for k_, x in enumerate(t.elts):
+                            d[x.id] = '(%s)[%d]' % (val, k_)
+                            facts = frozenset(self._age(f, x.id) if self._mentions(f[2], x.id) else f for f in facts)
                     else:
                         for x in ast.walk(t):
                             if isinstance(x, ast.Name):
